@@ -386,6 +386,23 @@ Proof.
   now apply assoc_lookup_indep_lemma.
 Qed.
 
+Lemma named_args_check_indep_lemma : forall V (tyof : V -> Z) declared (s1 s2 : list (gostr * V)),
+  Permutation s1 s2 -> NoDup (map fst s1) -> named_args_check tyof declared s1 = named_args_check tyof declared s2.
+Proof.
+  intros V tyof declared s1 s2 P ND. unfold named_args_check.
+  now rewrite (named_args_final_indep_lemma V (map fst declared) s1 s2 P ND).
+Qed.
+
+Lemma named_args_check_in_walk_order_refuted_lemma :
+  exists (declared : list (gostr * Z)) (s1 s2 : list (gostr * Z)), Permutation s1 s2 /\ NoDup (map fst s1) /\
+    named_args_check_in_walk_order (fun v => v) declared s1 <> named_args_check_in_walk_order (fun v => v) declared s2.
+Proof.
+  exists [([97], 0); ([98], 0)]%Z, [([97], 1); ([98], 1)]%Z, [([98], 1); ([97], 1)]%Z.
+  split; [apply perm_swap|]. split.
+  - constructor; [simpl; intros [H|[]]; discriminate|]. constructor; [simpl; tauto | constructor].
+  - vm_compute. discriminate.
+Qed.
+
 (* ------------------------------------------------------------------------------------ *)
 (* first offender                                                                        *)
 
